@@ -566,6 +566,10 @@ func neighbourhood(h []byte, mainnet bool, yield func(Str)) {
 	for n := 0; n <= len(base)+1; n++ {
 		yield(Str{Base: base, Op: "ones", S: strings.Repeat("1", n)})
 	}
+	for k := 1; k <= 40; k++ {
+		raw, _ := ref.B58Decode(base)
+		yield(Str{Base: base, Op: "wrap", S: ref.B58Encode(append([]byte{byte(k)}, raw...))})
+	}
 }
 
 func genStr(t *rapid.T) Str {
@@ -582,7 +586,7 @@ func genStr(t *rapid.T) Str {
 	}
 	pos := func(label string, max int) int { return rapid.IntRange(0, max).Draw(t, label) }
 	ops := []string{"same", "subst", "subst", "subst_nonalpha", "transpose", "insert", "insert_nonalpha", "delete", "delete_lead", "insert_lead1",
-		"version", "version_keepsum", "length", "truncate", "extend", "bitflip", "bitflip", "subst2", "random58", "ones", "pad", "case", "double", "hex", "highbit", "rawbyte"}
+		"version", "version_keepsum", "length", "truncate", "extend", "bitflip", "bitflip", "subst2", "random58", "ones", "pad", "case", "double", "hex", "highbit", "rawbyte", "wrap"}
 	op := rapid.SampledFrom(ops).Draw(t, "op")
 	c := Str{Base: base, Op: op}
 	switch op {
@@ -691,6 +695,19 @@ func genStr(t *rapid.T) Str {
 		}
 	case "double":
 		c.S = base + base
+	case "wrap":
+		// a longer numeral that equals the valid 25-byte payload modulo 2^200 (or modulo 2^(8n)
+		// for a neighbouring width): what a fixed-width accumulator keeps of it is a valid address
+		raw, _ := ref.B58Decode(base)
+		k := rapid.SampledFrom([]int{1, 1, 2, 3, 31, 32, 33, 58, 255, 256, 65535}).Draw(t, "k")
+		if rapid.IntRange(0, 3).Draw(t, "k_any") == 0 {
+			k = rapid.IntRange(1, 1<<20).Draw(t, "k_v")
+		}
+		var hi []byte
+		for x := k; x > 0; x >>= 8 {
+			hi = append([]byte{byte(x)}, hi...)
+		}
+		c.S = ref.B58Encode(append(hi, raw...))
 	case "hex":
 		// the raw 25 bytes, or the hash, rendered as hex instead of Base58
 		raw, _ := ref.B58Decode(base)
@@ -722,7 +739,7 @@ func enumAddresses(tier string) int {
 func TestStrings(t *testing.T) {
 	pbt.Run(t, pbt.Sub[Str]{
 		Name: "strings", Quick: 1000000, Thorough: 12000000,
-		EnumDesc: fmt.Sprintf("complete neighbourhood of %d (quick) / %d (thorough) derived addresses (hashes with 0..3 leading zero bytes, both networks): every single-character substitution by the 57 other alphabet characters and by 5 non-alphabet characters, every deletion, every adjacent transposition, every insertion of every alphabet character at every position, all 256 version bytes with recomputed and with kept checksum, payload lengths 0..40, runs of '1'", enumAddresses("quick"), enumAddresses("thorough")),
+		EnumDesc: fmt.Sprintf("complete neighbourhood of %d (quick) / %d (thorough) derived addresses (hashes with 0..3 leading zero bytes, both networks): every single-character substitution by the 57 other alphabet characters and by 5 non-alphabet characters, every deletion, every adjacent transposition, every insertion of every alphabet character at every position, all 256 version bytes with recomputed and with kept checksum, payload lengths 0..40, runs of '1', the 40 smallest longer numerals congruent to the payload modulo 2^200", enumAddresses("quick"), enumAddresses("thorough")),
 		Enum: func(tier string, yield func(Str)) {
 			n := enumAddresses(tier)
 			for i := 0; i < n; i++ {
